@@ -1,13 +1,14 @@
 #!/bin/sh
-# run_seeded.sh <id> <prop> [extra verif args] : runs the quick check of <prop> against go-cty with /verif/seeded/<id>/patch.diff applied.
+# run_seeded.sh <id> <prop> [extra verif args] : runs the quick check of <prop> against go-cty with $V/seeded/<id>/patch.diff applied.
 # The patch is applied to a scratch worktree of /repo's HEAD (removed afterwards) that the driver is pointed at with VERIF_REPO,
 # which is the same as `git -C /repo apply` + run + `git -C /repo checkout -- .` but never disturbs /repo or sweeps reading it.
 ID=$1; P=$2; shift; shift
-cd /verif
+cd "$(dirname "$0")/.." || exit 2
+V=$(pwd)
 WT=/tmp/wt-seeded.$ID.$P.$$
 git -C /repo worktree add --detach $WT HEAD >/dev/null 2>&1 || { echo "cannot create worktree"; exit 2; }
 trap 'git -C /repo worktree remove --force $WT >/dev/null 2>&1; rm -rf /tmp/seeded_replays' EXIT
-git -C $WT apply /verif/seeded/$ID/patch.diff || { echo "SEEDED $ID: patch does not apply"; exit 2; }
+git -C $WT apply $V/seeded/$ID/patch.diff || { echo "SEEDED $ID: patch does not apply"; exit 2; }
 LOG=/tmp/seeded_$ID.$P.log
 VERIF_REPO=$WT VERIF_EVIDENCE_DIR=/tmp/seeded_evidence VERIF_REPLAYS_DIR=/tmp/seeded_replays ./bin/verif check $P --tier quick "$@" > $LOG 2>&1; RC=$?
 V=$(grep -a -c "^VIOLATION" $LOG)
